@@ -3,6 +3,9 @@
 -/
 import PPVerif.Model.TopoDefs
 import PPVerif.Generated.C26
+import Mathlib.Data.Finset.Card
+import Mathlib.Data.List.Basic
+import Mathlib.Data.Finset.Dedup
 
 namespace PPVerif.C26
 open PPVerif.Topo
@@ -146,6 +149,171 @@ theorem C26_reach_sound (net : Net) (o : Opts) (roots : List Nat) (x : Nat) (h :
   intro y hy
   simp only [List.mem_filter] at hy
   exact ⟨y, hy.1, Path.refl y⟩
+
+/-! ## completeness of the fuel-bounded search -/
+
+theorem mem_stepReach (es : List Adj) (cur : List Nat) (x : Nat) :
+    x ∈ stepReach es cur ↔ x ∈ cur ∨ ∃ a ∈ es, a.u ∈ cur ∧ a.v = x := by
+  simp only [stepReach, List.mem_eraseDups, List.mem_append, List.mem_map, List.mem_filter, List.contains_iff_mem]
+  constructor
+  · rintro (h | ⟨a, ⟨ha, hu⟩, rfl⟩)
+    · exact Or.inl h
+    · exact Or.inr ⟨a, ha, hu, rfl⟩
+  · rintro (h | ⟨a, ha, hu, rfl⟩)
+    · exact Or.inl h
+    · exact Or.inr ⟨a, ⟨ha, hu⟩, rfl⟩
+
+theorem reachN_succ (es : List Adj) (n : Nat) (cur : List Nat) :
+    reachN es (n + 1) cur = stepReach es (reachN es n cur) := by
+  induction n generalizing cur with
+  | zero => rfl
+  | succ n ih => rw [reachN, ih]; rfl
+
+def Closed (es : List Adj) (s : List Nat) : Prop := ∀ a ∈ es, a.u ∈ s → a.v ∈ s
+
+theorem closed_step (es : List Adj) (s : List Nat) (h : Closed es s) (x : Nat) : x ∈ stepReach es s ↔ x ∈ s := by
+  rw [mem_stepReach]
+  constructor
+  · rintro (h1 | ⟨a, ha, hu, rfl⟩)
+    · exact h1
+    · exact h a ha hu
+  · exact Or.inl
+
+theorem closed_stepReach (es : List Adj) (s : List Nat) (h : Closed es s) : Closed es (stepReach es s) := by
+  intro a ha hu
+  rw [closed_step es s h] at hu ⊢
+  exact h a ha hu
+
+/-- either the search has reached a fixed point after `k` rounds or it has found at least `k` new buses -/
+theorem grow (es : List Adj) (cur : List Nat) (k : Nat) :
+    Closed es (reachN es k cur) ∨ cur.toFinset.card + k ≤ (reachN es k cur).toFinset.card := by
+  induction k with
+  | zero => right; simp [reachN]
+  | succ k ih =>
+    by_cases hc : Closed es (reachN es k cur)
+    · left; rw [reachN_succ]; exact closed_stepReach es _ hc
+    · right
+      rcases ih with ih | ih
+      · exact absurd ih hc
+      · unfold Closed at hc
+        push Not at hc
+        obtain ⟨a, ha, hu, hv⟩ := hc
+        rw [reachN_succ]
+        have hsub : (reachN es k cur).toFinset ⊂ (stepReach es (reachN es k cur)).toFinset := by
+          rw [Finset.ssubset_iff_of_subset]
+          · exact ⟨a.v, by simp only [List.mem_toFinset, mem_stepReach]; exact Or.inr ⟨a, ha, hu, rfl⟩, by simpa using hv⟩
+          · intro x hx
+            simp only [List.mem_toFinset, mem_stepReach] at hx ⊢
+            exact Or.inl hx
+        have := Finset.card_lt_card hsub
+        omega
+
+theorem reachN_sub (es : List Adj) (ns : List Nat) (he : ∀ a ∈ es, a.v ∈ ns) (k : Nat) (cur : List Nat) (hc : ∀ x ∈ cur, x ∈ ns) :
+    ∀ x ∈ reachN es k cur, x ∈ ns := by
+  induction k generalizing cur with
+  | zero => simpa [reachN] using hc
+  | succ k ih =>
+    rw [reachN]
+    apply ih
+    intro x hx
+    rw [mem_stepReach] at hx
+    rcases hx with hx | ⟨a, ha, _, rfl⟩
+    · exact hc x hx
+    · exact he a ha
+
+theorem reachN_mono (es : List Adj) (k : Nat) (cur : List Nat) : ∀ x ∈ cur, x ∈ reachN es k cur := by
+  induction k generalizing cur with
+  | zero => simp [reachN]
+  | succ k ih =>
+    intro x hx
+    rw [reachN]
+    exact ih _ x ((mem_stepReach es cur x).2 (Or.inl hx))
+
+/-- with as many rounds as there are nodes the search result is closed under the edges -/
+theorem reachN_closed (es : List Adj) (ns : List Nat) (he : ∀ a ∈ es, a.v ∈ ns) (cur : List Nat) (hc : ∀ x ∈ cur, x ∈ ns) :
+    Closed es (reachN es ns.length cur) := by
+  rcases grow es cur ns.length with h | h
+  · exact h
+  · cases cur with
+    | nil =>
+      have : ∀ k, reachN es k [] = [] := by
+        intro k; induction k with
+        | zero => rfl
+        | succ k ih => rw [reachN]; simpa [stepReach] using ih
+      rw [this]; intro a _ hu; simp at hu
+    | cons c cs =>
+      exfalso
+      have h1 : (reachN es ns.length (c :: cs)).toFinset ⊆ ns.toFinset := by
+        intro x hx
+        simp only [List.mem_toFinset] at hx ⊢
+        exact reachN_sub es ns he _ _ hc x hx
+      have h2 := Finset.card_le_card h1
+      have h3 : ns.toFinset.card ≤ ns.length := List.toFinset_card_le ns
+      have h4 : 0 < (c :: cs).toFinset.card := by
+        apply Finset.card_pos.2
+        exact ⟨c, by simp⟩
+      omega
+
+theorem rawAdj_symm (net : Net) (o : Opts) (a : Adj) (h : a ∈ rawAdj net o) : ⟨a.v, a.u, a.kind, a.idx, a.w⟩ ∈ rawAdj net o := by
+  simp only [rawAdj, List.mem_append, List.mem_flatMap, mem_both, List.mem_filter] at h ⊢
+  rcases h with (⟨b, hb, he⟩ | ⟨t, ht, p, hp, he⟩) | ⟨s, hs, he⟩
+  · refine Or.inl (Or.inl ⟨b, hb, ?_⟩)
+    rcases he with rfl | rfl <;> simp
+  · refine Or.inl (Or.inr ⟨t, ht, p, hp, ?_⟩)
+    rcases he with rfl | rfl <;> simp
+  · refine Or.inr ⟨s, hs, ?_⟩
+    rcases he with rfl | rfl <;> simp
+
+theorem adj_target_node (net : Net) (o : Opts) (a : Adj) (h : a ∈ adj net o) : a.v ∈ nodes net o := by
+  simp only [adj, List.mem_filter, Bool.and_eq_true, Bool.not_eq_true'] at h
+  rw [C26_nodes_exact]
+  refine ⟨Or.inr ?_, h.2.1.2⟩
+  exact List.mem_map.2 ⟨_, rawAdj_symm net o a h.1, rfl⟩
+
+/-- **completeness of the search**: every bus connected by a path of the graph to a root that is a node is found -/
+theorem C26_reach_complete (net : Net) (o : Opts) (roots : List Nat) (r x : Nat) (hr : r ∈ roots) (hn : r ∈ nodes net o)
+    (hp : Path net o r x) : x ∈ reach net o roots := by
+  unfold reach
+  have hcl := reachN_closed (adj net o) (nodes net o) (adj_target_node net o)
+    (roots.filter (fun r => (nodes net o).contains r)) (by intro y hy; simpa using (List.mem_filter.1 hy).2)
+  induction hp with
+  | refl => exact reachN_mono _ _ _ _ (List.mem_filter.2 ⟨hr, by simpa using hn⟩)
+  | tail _ hs ih =>
+    obtain ⟨a, ha, rfl, rfl⟩ := hs
+    exact hcl a ha ih
+
+
+
+/-- soundness with the root as a node of the graph -/
+theorem reach_sound_node (net : Net) (o : Opts) (roots : List Nat) (x : Nat) (h : x ∈ reach net o roots) :
+    ∃ r ∈ roots, r ∈ nodes net o ∧ Path net o r x := by
+  unfold reach at h
+  obtain ⟨r, hr, hp⟩ := reachN_sound net o (roots.filter (fun r => (nodes net o).contains r)) _ _
+    (fun y hy => ⟨y, hy, Path.refl y⟩) x h
+  rw [List.mem_filter] at hr
+  exact ⟨r, hr.1, by simpa using hr.2, hp⟩
+
+/-- **exactly**: the reported set is the set of graph nodes without an energizing path from a slack bus that is itself a node -/
+theorem C26_unsupplied_exact (net : Net) (o : Opts) (slacks : List Nat) (b : Nat) :
+    b ∈ unsupplied net o slacks ↔ b ∈ nodes net o ∧ ¬ ∃ r ∈ slacks, r ∈ nodes net o ∧ Path net o r b := by
+  have hc : ∀ l : List Nat, (l.contains b = false) ↔ b ∉ l := by intro l; simp
+  simp only [unsupplied, List.mem_filter, Bool.not_eq_true', hc]
+  constructor
+  · rintro ⟨hb, hr⟩
+    refine ⟨hb, ?_⟩
+    rintro ⟨r, hr1, hr2, hp⟩
+    exact hr (C26_reach_complete net o slacks r b hr1 hr2 hp)
+  · rintro ⟨hb, hn⟩
+    exact ⟨hb, fun h => hn (reach_sound_node net o slacks b h)⟩
+
+
+
+/-- **reach = exactly the path-connected set** (sound and complete) -/
+theorem C26_reach_exact (net : Net) (o : Opts) (roots : List Nat) (x : Nat) :
+    x ∈ reach net o roots ↔ ∃ r ∈ roots, r ∈ nodes net o ∧ Path net o r x := by
+  constructor
+  · exact reach_sound_node net o roots x
+  · rintro ⟨r, hr, hn, hp⟩; exact C26_reach_complete net o roots r x hr hn hp
 
 /-- non-vacuity / witness: a line behind an open switch is no edge, behind a closed one it is -/
 example :
